@@ -124,3 +124,18 @@ def run(chk, repo):
     chk.ob('C09.d', 'early return for an over-long start node requires `not node.selenocysteines`', repo.loc(fm, rets[0].ast) if rets else fm.where, ok,
            'an over-long start node carrying a Sec is abandoned: the peptide ending at the Sec (valid after truncation) is never produced',
            key=fm.qual + '::sec-long-node', fn=fm.qual)
+
+    chk.rule('C09.e', 'Sec loop uses only the truncated sequence (no stale read of the untruncated peptide)', 1)
+    sec_loop = next((l for l in walk_no_nested(mt.node) if isinstance(l, ast.For) and unparse(l.iter) == 'selenocysteines'), None)
+    stale = []
+    if sec_loop is not None:
+        for n in ast.walk(sec_loop):
+            if isinstance(n, ast.Name) and n.id == 'seq' and isinstance(n.ctx, ast.Load):
+                st = repo.enclosing_stmt(n)
+                if isinstance(st, ast.Assign) and unparse(st.targets[0]) == 'seq_mod' and unparse(st.value).startswith('seq[:'):
+                    continue
+                stale.append(f"{repo.loc(mt, n)}: {norm_stmt(st)[:70]}")
+    chk.ob('C09.e', 'inside `for sec in selenocysteines` the full sequence `seq` is read only to derive seq_mod', repo.loc(mt, sec_loop) if sec_loop else mt.where,
+           sec_loop is not None and not stale,
+           f"the Sec-termination loop reads the untruncated `seq` at {stale}: validity / emission of the truncated peptide is decided on the wrong sequence",
+           key=mt.qual + '::stale-seq-in-sec-loop', fn=mt.qual)
